@@ -13,8 +13,8 @@ RULE = ("noise-free complex fields of lengths {2,3,17,64,255,256,1001,4096}, 1/2
 ASSUMPTIONS = ["the library converts dB/km to 1/km with the textbook constant 4.343 (exact 4.342944...): the absolute loss law is asserted to "
                "2e-5 of the exponent, the *shape* of the output (after removing its scalar gain) at 1e-9",
                "fields carrying a noise component: only shape preservation is asserted (noise is outside the statement)"]
-TOLERANCES = {"shape_rtol": 1e-9, "loss_exponent_rel": 2e-5, "dm_energy_rtol": 1e-12}
-MIN_CHECKS = {"dm.post": 300, "fiber.post": 300, "probe.one_step": 100, "compose": 200}
+TOLERANCES = {"shape_rtol": 1e-9, "loss_exponent_rel": 2e-5, "dm_energy_rtol": "max(1e-12, 3e-13*sqrt(N)): rounding of an N-point FFT pair (thorough tier, seed 5, measured 1.7e-12 at N=131075 on the pinned tree: a false alarm of the fixed 1e-12)"}
+MIN_CHECKS = {"dm.post": 300, "fiber.post": 300, "compose": 200}      # (the frame probe "one linear step" is an optional white-box cross-check, not a deciding monitor)
 SHARDS = {"quick": 4}
 
 D = T = None
@@ -51,7 +51,7 @@ def setup(ctx):
                     ctx.check("dm.post", relerr(out.signal, want) <= 1e-9, f"DM({D_}) output differs from exp(-j*D*w^2/2) filter (rel err {relerr(out.signal, want):.3g})")
                     e_in = np.sum(np.abs(input.signal) ** 2, axis=-1)
                     e_out = np.sum(np.abs(out.signal) ** 2, axis=-1)
-                    ctx.check("dm.energy", np.allclose(e_out, e_in, rtol=1e-12, atol=0), "DM does not conserve energy per polarisation", e_in=e_in, e_out=e_out)
+                    ctx.check("dm.energy", np.allclose(e_out, e_in, rtol=max(1e-12, 3e-13 * np.sqrt(input.len())), atol=0), "DM does not conserve energy per polarisation", e_in=e_in, e_out=e_out)
                     if retH:
                         Hs = np.fft.ifftshift(np.asarray(r[1]))
                         ctx.check("dm.retH", Hs.shape == H.shape and relerr(Hs, H) <= 1e-9, "DM retH does not match the filter actually applied")
